@@ -190,6 +190,11 @@ func exporterJob(entry string, nm, symlabels int, bound string) JobDef {
 		Substs: []Subst{
 			{File: "internal/exporter/prometheus.go", Old: "prometheus.NewConstMetric(", New: "verifNewConstMetric("},
 			{File: "internal/exporter/prometheus.go", Old: "prometheus.NewConstHistogram(", New: "verifNewConstHistogram("},
+			// export points right after an exporter took a metric's read lock
+			{File: "internal/exporter/prometheus.go", Old: "\t\tm.RLock()\n", New: "\t\tm.RLock()\n\t\tc12WriterPoint()\n"},
+			{File: "internal/exporter/export.go", Old: "\t\tm.RLock()\n", New: "\t\tm.RLock()\n\t\tc12WriterPoint()\n"},
+			{File: "internal/exporter/graphite.go", Old: "\t\tm.RLock()\n", New: "\t\tm.RLock()\n\t\tc12WriterPoint()\n"},
+			{File: "internal/exporter/varz.go", Old: "\t\tm.RLock()\n", New: "\t\tm.RLock()\n\t\tc12WriterPoint()\n"},
 		},
 		Bound: bound}
 }
